@@ -43,7 +43,8 @@ def contents():
         bl.append(ln)
     b = "\n".join(bl) + "\n"
     assert len(b) == len(a) and b != a
-    return {"a": a, "u": u, "m": m, "c": c, "b": b}
+    # "f": content "a" behind a UTF-8 byte-order mark (files saved by some editors); path and stream read the same text
+    return {"a": a, "u": u, "m": m, "c": c, "b": b, "f": "\ufeff" + a}
 
 
 def options_for(cid, o, texts):
@@ -118,6 +119,8 @@ def run(ctx):
     # the second chain selected first, then everything: nothing of the first call may show in the second
     systematic.append([{"c": "c", "o": "cB", "via": "single"}, {"c": "c", "o": "default", "via": "single"}, {"c": "c", "o": "cB", "via": "single"}])
     systematic.append([{"c": "c", "o": "cB", "via": "single"}, {"c": "c", "o": "d", "via": "main1"}, {"c": "a", "o": "default", "via": "single"}])
+    systematic.append([{"c": "f", "o": "default", "via": "single", "mode": "path"}, {"c": "f", "o": "default", "via": "single", "mode": "stream"},
+                       {"c": "f", "o": "default", "via": "main1", "mode": "path"}])
     chosen = systematic + chosen
     texts = contents()
     files = {"custom.cfg": custom_cfg()}
